@@ -2905,6 +2905,7 @@ impl<'a, const HAS_CR: bool> Parser<'a, HAS_CR> {
             self.maybe_capture_line_comment(self.last_open_bp_pos);
             self.take_pending_head_comment(self.last_open_bp_pos);
             self.skip_to_eol();
+            let key_line_end = self.pos;
 
             // Look ahead to see what the next content line looks like
             self.skip_newlines();
@@ -2927,17 +2928,24 @@ impl<'a, const HAS_CR: bool> Parser<'a, HAS_CR> {
                 matches!(next_char, Some(b'-')) && Self::is_ws_break_or_eoi(self.peek_at(1));
             self.pos = saved_pos;
 
-            if next_indent < indent {
-                // Next line is at lower indent - definitely null value
-                self.set_ib();
-                self.write_bp_open();
-                self.write_bp_close();
-                return Ok(());
-            }
-
-            if next_indent == indent && !is_sequence_indicator {
-                // Next line is at same indent but NOT a sequence - null value
-                // (If it were a sequence, the sequence is the value of this key)
+            if next_indent < indent || (next_indent == indent && !is_sequence_indicator) {
+                // Next line is at lower indent, or at the same indent but NOT a
+                // sequence (which would be the value of this key) - null value.
+                //
+                // The empty node carries no extent, so `YamlCursor::value`
+                // decides what it is from the byte at its position. That
+                // position is the start of the next line, which is harmless
+                // while that line starts with a space or a plain key, but a
+                // node that starts there with an indicator of its own
+                // (`a:\n"b": 1`) was decoded as this key's value: `{"a":"b"}`.
+                // Put the empty node at the end of the key's own line then,
+                // where the anchored form of this arm below always puts it.
+                if matches!(
+                    self.peek(),
+                    Some(b'"' | b'\'' | b'[' | b'{' | b'*' | b'&' | b'!' | b'|' | b'>')
+                ) {
+                    self.pos = key_line_end;
+                }
                 self.set_ib();
                 self.write_bp_open();
                 self.write_bp_close();
@@ -6693,6 +6701,30 @@ mod tests {
             result.is_ok(),
             "double colon plain scalar should parse: {result:?}"
         );
+    }
+
+    /// `a:` followed by an entry that starts at column 0 with an indicator of
+    /// its own: `a` is null. Its empty node used to sit on that indicator and
+    /// was decoded as whatever started there.
+    #[test]
+    fn null_value_before_a_column_zero_indicator_stays_null() {
+        for (yaml, expected) in [
+            (&b"a:\n\"b\": 1\n"[..], "{\"a\":null,\"b\":1}"),
+            (b"a:\n'b': 1\n", "{\"a\":null,\"b\":1}"),
+            (b"x:\n  a:\n\"b\": 1\n", "{\"x\":{\"a\":null},\"b\":1}"),
+            (b"a: # c\n\"b\": 1\n", "{\"a\":null,\"b\":1}"),
+            (b"&k a: 1\nb:\n*k : 2\n", "{\"a\":1,\"b\":null,\"a\":2}"),
+            (b"a:\n&k b: 1\n", "{\"a\":null,\"b\":1}"),
+            (b"a:\nb: 1\n", "{\"a\":null,\"b\":1}"),
+        ] {
+            let index = crate::yaml::YamlIndex::build(yaml).expect("should parse");
+            assert_eq!(
+                index.root(yaml).to_json_document(),
+                expected,
+                "input: {:?}",
+                core::str::from_utf8(yaml)
+            );
+        }
     }
 
     #[test]
